@@ -141,16 +141,24 @@ func genCases(cfg vlib.Cfg, crossOK bool) []caseSpec {
 				}
 			case tGzip:
 				sp.Old = "absent" // Unpack is a no-op when the unpacked file exists
-				sp.Variant = []string{"suffix", "nosuffix", "corrupt"}[i%3]
+				sp.Variant = []string{"suffix", "nosuffix", "corrupt", "multi"}[i%4]
 				sp.TmpMount = "same" // temp dir is the registry's tmp dir
 				if sp.NewSize == 0 && sp.Variant == "corrupt" {
 					sp.NewSize = 900
 				}
+				if sp.NewSize < 300 && sp.Variant == "multi" {
+					sp.NewSize = 1500
+				}
 			case tZip:
+				// i%4: 0 = plain, 1 = a regular file blocks the destination, 2 = a member's compressed
+				// data is cut short, 3 = a member with a wrong CRC
 				sp.Old = "absent"
-				sp.Variant = "ok"
-				if i%4 == 3 {
-					sp.Variant = "corrupt"
+				sp.Variant = []string{"ok", "ok", "truncmember", "corrupt"}[i%4]
+				if i%4 == 1 {
+					sp.Old = "file"
+					if sp.OldSize == 0 {
+						sp.OldSize = 321
+					}
 				}
 				sp.Entries = r.Range(2, cfg.N(4, 7))
 				sp.TmpMount = "same"
